@@ -1,8 +1,8 @@
 (* FrBin.v — executable model of pymodbus/framer/binary_framer.py (ModbusBinaryFramer),
    statement by statement.  _header always has the three keys crc/len/uid.  checkFrame
-   mutates _buffer (drops bytes before the first '{') and _header key by key; note that
-   the local `start` is NOT updated after the buffer was trimmed (the CRC is then taken
-   over the wrong span) — that is what the code does.  The while loop is recursion on
+   mutates _buffer (drops bytes before the first '{') and _header key by key; the slice bounds
+   are the regenerated expressions (since the /repo repair d8b2fbf the CRC span no longer
+   depends on the stale pre-trim `start`; advanceFrame drops len + 1 bytes since 7ea2a54).  The while loop is recursion on
    fuel S(length buffer); [FOutOfFuel] is proved unreachable in proofs/FrB_bin_proofs.v.
    No proofs here. *)
 From PM.theories Require Import Base Expr Struct FrBCode Crc FrBCommon.
